@@ -35,17 +35,17 @@ func (a *shAttr) Stats(t key.TargetID) *info.Stats {
 	mods.Props[prop.ShieldTaken] = s.taken
 	return info.NewStats(t, new(info.Attributes), mods)
 }
-func (a *shAttr) Stance(key.TargetID) float64            { return 0 }
-func (a *shAttr) MaxStance(key.TargetID) float64         { return 0 }
-func (a *shAttr) Energy(key.TargetID) float64            { return 0 }
-func (a *shAttr) MaxEnergy(key.TargetID) float64         { return 0 }
-func (a *shAttr) EnergyRatio(key.TargetID) float64       { return 0 }
-func (a *shAttr) HPRatio(key.TargetID) float64           { return 1 }
-func (a *shAttr) IsAlive(key.TargetID) bool              { return true }
-func (a *shAttr) State(key.TargetID) info.TargetState    { return info.Alive }
-func (a *shAttr) FullEnergy(key.TargetID) bool           { return false }
+func (a *shAttr) Stance(key.TargetID) float64              { return 0 }
+func (a *shAttr) MaxStance(key.TargetID) float64           { return 0 }
+func (a *shAttr) Energy(key.TargetID) float64              { return 0 }
+func (a *shAttr) MaxEnergy(key.TargetID) float64           { return 0 }
+func (a *shAttr) EnergyRatio(key.TargetID) float64         { return 0 }
+func (a *shAttr) HPRatio(key.TargetID) float64             { return 1 }
+func (a *shAttr) IsAlive(key.TargetID) bool                { return true }
+func (a *shAttr) State(key.TargetID) info.TargetState      { return info.Alive }
+func (a *shAttr) FullEnergy(key.TargetID) bool             { return false }
 func (a *shAttr) LastAttacker(t key.TargetID) key.TargetID { return t }
-func (a *shAttr) SP() int                                { return 0 }
+func (a *shAttr) SP() int                                  { return 0 }
 
 var shFormula = map[string]model.ShieldFormula{
 	"FAtk":         model.ShieldFormula_SHIELD_BY_SHIELDER_ATK,
